@@ -370,7 +370,10 @@ impl<'a, I: MonItem> World<'a, I> {
         self.next_id += 1;
         let mut single = lib!(Treap::from_item(I::make(id, &e)));
         single.root_mut().unwrap().attach(&m);
-        let item = single.root.take().unwrap().item;
+        // (taken out with mem::take, not by moving the field: that keeps compiling if the node type ever gets a Drop impl)
+        let mut node = single.root.take().unwrap();
+        let item = std::mem::take(&mut node.item);
+        drop(node);
         let mut e2 = e;
         I::apply_elem_at(&mut e2, &m, 0);
         lib!(self.pool[i].treap.insert_at(pos, item));
